@@ -46,6 +46,7 @@ type Reply struct {
 	Root   string     `json:"root,omitempty"`
 	Gmp    int        `json:"gmp,omitempty"`
 	Pid    int        `json:"pid,omitempty"`
+	Gen    string     `json:"gen,omitempty"` // digest of the genesis block's local data
 }
 
 func childMain(env *core.Env, args []string) int {
@@ -101,7 +102,18 @@ func childMain(env *core.Env, args []string) int {
 					send(&Reply{Err: err.Error()})
 					return
 				}
-				send(&Reply{OK: true, Root: fmt.Sprintf("%x", rig.tip.StateHash), Gmp: runtime.GOMAXPROCS(0)})
+				send(&Reply{OK: true, Root: fmt.Sprintf("%x", rig.tip.StateHash), Gmp: runtime.GOMAXPROCS(0), Gen: rig.GenesisDigest()})
+			case "chain":
+				// another chain instance (its own empty databases) started, its genesis executed, stopped -
+				// in this process, whatever ran here before
+				r2, err := NewRig(c.Para, c.Plugins)
+				if err != nil {
+					send(&Reply{Err: "second chain: " + err.Error()})
+					return
+				}
+				g := r2.GenesisDigest()
+				r2.Close()
+				send(&Reply{OK: true, Gen: g})
 			case "gmp":
 				runtime.GOMAXPROCS(c.Gmp)
 				send(&Reply{OK: true, Gmp: runtime.GOMAXPROCS(0)})
@@ -197,6 +209,7 @@ type childProc struct {
 	para  bool
 	plug  string
 	hasNd bool
+	gen   string
 }
 
 func startChild(gmp int) (*childProc, error) {
